@@ -181,6 +181,8 @@ class Interp(ExprMixin):
             if res is not None:
                 res.entry["arg_kinds"] = [set(a.kinds) if isinstance(a, NodeV) else None for a in (self._cur_args or [])]
                 res.entry["args"] = list(self._cur_args or [])
+                res.entry["sym_eq"] = dict(self.sym_eq)
+                res.entry["sym_neq"] = {k: set(v) for k, v in self.sym_neq.items()}
                 results.append(res)
             # next script
             tr = self.trace
